@@ -254,3 +254,47 @@ def run_worker(ctx, cases, worker="kworker.py", scratch=None, env=None, timeout=
         elif i in stderr_by_case and "crash" in x:
             x["stderr"] = stderr_by_case[i]
     return results
+
+
+def isolated_map(fn, items):
+    """Apply `fn` to every item in forked children; a crash of the interpreter on one item is reported as
+    ('crash', signo) for that item and the rest continue in a fresh child.  Results are pickled back."""
+    import pickle, struct as _st
+    out = [None] * len(items)
+    start = 0
+    while start < len(items):
+        r, w = os.pipe()
+        pid = os.fork()
+        if pid == 0:
+            os.close(r)
+            try:
+                with os.fdopen(w, "wb") as f:
+                    for i in range(start, len(items)):
+                        try:
+                            res = fn(items[i])
+                        except BaseException as e:  # noqa
+                            res = ("raised", type(e).__name__ + ":" + str(e)[:80])
+                        b = pickle.dumps(res)
+                        f.write(_st.pack("<II", i, len(b)) + b)
+                        f.flush()
+            finally:
+                os._exit(0)
+        os.close(w)
+        done = start
+        with os.fdopen(r, "rb") as f:
+            while True:
+                h = f.read(8)
+                if len(h) < 8:
+                    break
+                i, n = _st.unpack("<II", h)
+                b = f.read(n)
+                if len(b) < n:
+                    break
+                out[i] = pickle.loads(b)
+                done = i + 1
+        _, status = os.waitpid(pid, 0)
+        if done < len(items):
+            out[done] = ("crash", os.WTERMSIG(status) if os.WIFSIGNALED(status) else -1)
+            done += 1
+        start = done
+    return out
